@@ -609,6 +609,12 @@ func (hs *clientHandshakeStateTLS13) establishHandshakeKeys() error {
 		if k, ok := hs.uconn.extraEcdheKeys[hs.serverHello.serverShare.group]; ok {
 			hs.keyShareKeys.ecdhe = k
 		}
+		// the classical half of a hybrid share has its own X25519 key, whatever
+		// group the first classical share of the hello is for (or if there is none)
+		if g := hs.serverHello.serverShare.group; (g == X25519MLKEM768 || g == X25519Kyber768Draft00) &&
+			hs.uconn.clientHelloBuildStatus == BuildByUtls && hs.keyShareKeys.mlkemEcdhe != nil {
+			hs.keyShareKeys.ecdhe = hs.keyShareKeys.mlkemEcdhe
+		}
 	}
 	sharedKey, err := getSharedKey(ecdhePeerData, hs.keyShareKeys.ecdhe)
 	// [uTLS] SECTION END
